@@ -176,7 +176,7 @@ theorem C10_srv17 (d : Bytes) (tsLen : Nat) : Documented (srv17Unpack d tsLen) :
 theorem C10_srv17_prefix (t : Tm) (wf : C03.WF t) (n k : Nat) (hk : k < (C03.Spec.octets t).length) :
     Rejected (srv17Unpack ((C03.Spec.octets t).take k) n) := C10_tm_prefix_any_ts t wf n k hk
 
-theorem C10_tm_service (d : Bytes) : Documented (serviceFromBytes d) := C03.C03_service_from_bytes d
+theorem C10_tm_service (d : Bytes) : Documented (serviceFromBytes d) := (C03.C03_service_from_bytes d).2.2
 
 /-- `service_from_bytes` needs the first eight octets -/
 theorem C10_tm_service_prefix (d : Bytes) (h : d.length < 8) : Rejected (serviceFromBytes d) := by
